@@ -47,6 +47,7 @@ class Ctx:
         self.exhaustive = None
         self.rule = ""
         self.known = {k["key"]: k for k in load_known() if k["property"] == pid}
+        self.tolerated = set()     # deviations that belong to ANOTHER property's known findings: accepted silently here
         self.extra = {}
 
     # ---------------- TLC on the specification itself ----------------
@@ -135,7 +136,7 @@ class Ctx:
                 acc += 1
                 continue
             if v.accepted:
-                dev = v.min_dev()
+                dev = [d for d in v.min_dev() if d not in self.tolerated]
                 unknown = [d for d in dev if d not in self.known]
                 if not unknown and not expect_clean:
                     acc += 1
